@@ -276,6 +276,12 @@ func replayC10(rf *vstat.ReplayFile) string {
 	if rf.Property != "C10" {
 		return "unknown replay kind " + rf.Kind
 	}
+	switch {
+	case rf.Part == "cbgate":
+		return replayCB(rf)
+	case strings.HasPrefix(rf.Part, "burst"):
+		return replayBurst(rf)
+	}
 	var probe struct {
 		Threads json.RawMessage `json:"threads"`
 		Ops     json.RawMessage `json:"ops"`
